@@ -54,6 +54,21 @@ def cases(tier, seed):
             for sc in (G.scalings_of(spec, (0, 1 if (si + ci) % 2 else 4)) if tier == "thorough" else G.scalings_of(spec, (0, 1))):
                 c = dict(cfg); c["iteration_limit"] = H
                 out.append({"spec": spec, "cfg": c, "sc": sc})
+    # DEBUG logging (extra diagnostics must not evaluate outside the box either): starts exactly on upper / lower bounds
+    for obj in ("qdiag", "cubic"):
+        for rows in ([], [("affine", "ranged")]):
+            for vk in (["boxed", "upper"], ["lower", "boxed"]):
+                sp0 = S.mk(2, obj, rows, vk, x0_idx=1)
+                for corner in ("ub", "lb"):
+                    sp = dict(sp0)
+                    sp["x0"] = [(u if corner == "ub" else l) if (u if corner == "ub" else l) not in ("inf", "-inf") else x for l, u, x in zip(sp0["var_lb"], sp0["var_ub"], sp0["x0"])]
+                    sp["tag"] += f"|start_on_{corner}|debug"
+                    for sc in G.scalings_of(sp, (0, 1, 4)):
+                        for dc in (None, "CheckFirst"):
+                            cfg = {"iteration_limit": H}
+                            if dc:
+                                cfg["deriv_check"] = dc
+                            out.append({"spec": sp, "cfg": cfg, "sc": sc, "dbg": True})
     # integer-typed bound arrays under every scaling
     for obj in ("qdiag", "cubic"):
         for rows in ([], [("affine", "ranged")], [("sphere", "upper")], [("affine", "introw")], [("sphere", "introw"), ("affine", "inteq")]):
@@ -80,7 +95,8 @@ def run_case(case):
 
     if case.get("no_x0"):
         case = dict(case); case["spec"] = dict(case["spec"]); case["spec"]["x0"] = None
-    ctx = G.execute(case, record=True)
+    import logging
+    ctx = G.execute(case, record=True, log_level=logging.DEBUG if case.get("dbg") else None)
     if ctx.setup_error is not None:
         return {"outcome": "setup:" + type(ctx.setup_error).__name__, "key": None, "violations": [], "stats": {}}
     viol = M.mon_c05(ctx.rec, ctx.recprob, ctx.F, ctx.params)
